@@ -175,7 +175,7 @@ func (w *World) runsInit(path string) bool {
 		return true
 	}
 	switch path {
-	case "golang.org/x/text/unicode/rangetable", "html", "unicode/utf8", "encoding/json", "bytes", "strings":
+	case "golang.org/x/text/unicode/rangetable", "html", "unicode/utf8", "encoding/json", "bytes", "strings", "strconv":
 		return true
 	}
 	return false
